@@ -1,0 +1,50 @@
+//go:build verif
+
+package proxy
+
+// Verification export hooks for property C19 (backend handshake address) — /verif/harness/cmd/c19.
+// Thin package-internal wrappers only (no logic): the connectedPlayer / serverConnection literals of
+// backend_handshake_addresser_test.go (newHandshakeAddrTestConnection) over caller-supplied
+// connections, and forwarding calls to the unexported methods named in each comment.
+// Compiled only with `-tags verif`.
+
+import (
+	"net"
+
+	"go.minekube.com/gate/pkg/edition/java/netmc"
+	"go.minekube.com/gate/pkg/edition/java/profile"
+)
+
+// VerifC19Conn lets the harness hold a *serverConnection (opaque outside the package).
+type VerifC19Conn struct{ sc *serverConnection }
+
+// VerifC19NewServerConn builds player (client connection, profile, virtual host) and a server
+// connection to a server with the given info whose backend connection is `backend`.
+func VerifC19NewServerConn(px *Proxy, client netmc.MinecraftConn, prof *profile.GameProfile,
+	virtualHost net.Addr, info ServerInfo, backend netmc.MinecraftConn) *VerifC19Conn {
+	player := &connectedPlayer{
+		MinecraftConn:      client,
+		sessionHandlerDeps: &sessionHandlerDeps{proxy: px, registrar: px, configProvider: px, eventMgr: px.event},
+		profile:            prof,
+		virtualHost:        virtualHost,
+	}
+	return &VerifC19Conn{sc: &serverConnection{
+		server:     newRegisteredServer(info),
+		player:     player,
+		connection: backend,
+	}}
+}
+
+// HandshakeAddr = serverConnection.handshakeAddr(vHost, player).
+func (v *VerifC19Conn) HandshakeAddr(vHost string) (string, error) {
+	return v.sc.handshakeAddr(vHost, v.sc.player)
+}
+
+// StartHandshake = serverConnection.startHandshake with a no-op read loop and an already answered
+// result channel (so that it returns after writing Handshake and ServerLogin to the backend).
+func (v *VerifC19Conn) StartHandshake() error {
+	ch := make(chan *connResponse, 1)
+	ch <- &connResponse{}
+	_, err := v.sc.startHandshake(func() {}, ch)
+	return err
+}
